@@ -256,13 +256,15 @@ enum { NQ_START = 0, NQ_MINUS = 1, NQ_ZERO = 2, NQ_INT = 3, NQ_DOT = 4, NQ_FRAC 
 /* bytes a number (in either notation) is made of: a scanner that consumes anything else has run into the next token */
 #define C05_NUMCHAR(c) (C05_ISHEX(c) || (c) == '-' || (c) == '+' || (c) == '.' || (c) == 'x')
 #define C05_PEEK3(r) ((r)->offset < (r)->length && (r)->offset + 2 < (r)->length ? (int)(r)->data[(r)->offset + 2] : -1)
-#define C05_DEC_OVF(acc, d) ((acc) > 922337203685477580ull || ((acc) == 922337203685477580ull && (d) > 7))       /* acc * 10 + d > INT64_MAX */
+/* acc * 10 + d exceeds the int64 range of its sign: magnitude > INT64_MAX for a positive numeral, > 2^63 for a negative one */
+#define C05_DEC_OVF(acc, d, neg) ((acc) > 922337203685477580ull || ((acc) == 922337203685477580ull && (d) > ((neg) ? 8u : 7u)))
+#define C05_INT_LIMIT(neg) (0x7FFFFFFFFFFFFFFFull + ((neg) ? 1u : 0u))
 #define C05_NUM_ENTRY g_j.nq = NQ_START; g_j.nacc = 0; g_j.novf = 0; g_j.nneg = 0; g_j.nalpha = 1; g_j.nhex = 0; g_j.nstart = r->offset; g_j.nc = 0; g_j.nc2 = 0
 /* before every get_s8() that consumes a byte: one transition; Horner fold of the integer digits (decimal: base 10, hex: base 16) */
 #define C05_NUM_STEP (g_j.nc = C05_PEEK(r), \
   g_j.nalpha = g_j.nalpha && C05_NUMCHAR(g_j.nc), \
   g_j.nneg = g_j.nneg || (g_j.nq == NQ_START && g_j.nc == '-'), \
-  g_j.novf = g_j.novf || (((g_j.nq == NQ_START || g_j.nq == NQ_MINUS || g_j.nq == NQ_INT) && C05_ISDIGIT(g_j.nc)) ? C05_DEC_OVF(g_j.nacc, (unsigned)(g_j.nc - '0')) : \
+  g_j.novf = g_j.novf || (((g_j.nq == NQ_START || g_j.nq == NQ_MINUS || g_j.nq == NQ_INT) && C05_ISDIGIT(g_j.nc)) ? C05_DEC_OVF(g_j.nacc, (unsigned)(g_j.nc - '0'), g_j.nneg) : \
                           ((g_j.nq == NQ_HEXP || g_j.nq == NQ_HEX) && C05_ISHEX(g_j.nc)) ? (g_j.nacc >> 59) != 0 : 0), \
   g_j.nacc = ((g_j.nq == NQ_START || g_j.nq == NQ_MINUS || g_j.nq == NQ_INT) && C05_ISDIGIT(g_j.nc)) ? g_j.nacc * 10 + (unsigned)(g_j.nc - '0') : \
              ((g_j.nq == NQ_HEXP || g_j.nq == NQ_HEX) && C05_ISHEX(g_j.nc)) ? ((g_j.nacc << 4) | (unsigned)C05_HEXVAL(g_j.nc)) : g_j.nacc, \
@@ -306,9 +308,10 @@ EFULL(verif_exc != 0 ==> (verif_exc == EXC_out_of_range && (g_j.nq == NQ_E || g_
 EFULL(g_j.nalpha)
 /* extent = longest match: while the consumed bytes are a prefix of a number, the scan stops only where no transition exists */
 EFULL((verif_exc == 0 && g_j.nq != NQ_DEAD) ==> !C05_NUM_HAS_NEXT(g_j.nq, g_j.nc, g_j.nc2, disable_extensions))
-/* kind: integer <=> neither fraction nor exponent */
-EFULL((verif_exc == 0 && C05_NUM_ACCEPTING(g_j.nq)) ==> ((ret->kind == JV_INT) == C05_NUM_INTEGRAL(g_j.nq)))
-/* integer value = Horner fold of the digits, for every numeral whose magnitude fits int64 */
+/* kind: integer <=> neither fraction nor exponent -- and, in decimal notation, a value inside the int64 range: an integer numeral
+ * outside it (e.g. 100000000000000000000, a number in double range) cannot be an int64 and must not wrap around; it is a float */
+EFULL((verif_exc == 0 && C05_NUM_ACCEPTING(g_j.nq)) ==> ((ret->kind == JV_INT) == (C05_NUM_INTEGRAL(g_j.nq) && !(g_j.novf && !g_j.nhex))))
+/* integer value = Horner fold of the digits, for every numeral inside the int64 range (INT64_MIN included) */
 EFULL((verif_exc == 0 && C05_NUM_INTEGRAL(g_j.nq) && !g_j.novf) ==> (ret->kind == JV_INT && (uint64_t)ret->i == (g_j.nneg ? 0 - g_j.nacc : g_j.nacc)))
 /* hexadecimal notation only when extensions are enabled */
 EFULL(g_j.nhex ==> !disable_extensions)
